@@ -106,6 +106,54 @@ def r1_template(ctx):
 
 
 # ---------------------------------------------------------------------------
+def self_helpers(ctx, rr):
+    """calls `self.<m>(...)` of RUN outside the part loop that resolve to one method of the same class (inlining bound 1):
+    [(node, call, helper)]"""
+    out = []
+    for (n, c, r) in rr.calls:
+        if r[0] == 'repo' and len(r[1]) == 1 and r[1][0].cls is not None and r[1][0].cls is rr.f.cls \
+                and isinstance(c.func, ast.Attribute) and is_name(c.func.value, 'self') and not rr.in_loop(n):
+            out.append((n, c, r[1][0]))
+    return out
+
+
+def helper_summary(ctx, h):
+    """what a helper method of DocTest guarantees on every normal return: the fields it resets, whether it stores a freshly
+    constructed RuntimeState in <recv>._runstate, and whether what it returns is that object"""
+    hg = ctx.cfg(h)
+    hrd = ctx.rd(h)
+    recv = h.node.args.args[0].arg
+    resets = set()
+    names = set()
+    for n in ast.walk(h.node):
+        fn = field_name(n, recv) if isinstance(n, ast.Attribute) else None
+        if fn and fn.count('.') == 1:
+            names.add(fn.split('.')[1])
+    for fld in names:
+        rs = []
+        for (kind, node, val) in field_ops(h.node, recv, fld):
+            if kind == 'reset':
+                rs += hg.nodes_containing(node)
+        if rs and graph.must_pass([hg.entry], lambda x: x is hg.exit, through=rs, efilter=graph.normal_only) is None:
+            resets.add(fld)
+    ctor_calls = [c for c in walk_scope(h.node) if isinstance(c, ast.Call) and ctx.res.resolve_call(h, c)[0] == 'class' and ctx.res.resolve_call(h, c)[1].qualname == RS]
+    stores = [d for d in hrd.defs_of(recv + '._runstate') if isinstance(d.value, ast.Call) and any(d.value is c for c in ctor_calls)]
+    stores_fresh = bool(stores) and graph.must_pass([hg.entry], lambda x: x is hg.exit, through=[d.node for d in stores], efilter=graph.normal_only) is None
+    returns_fresh = False
+    rets = [n for n in hg.nodes if n.kind == 'stmt' and isinstance(n.ast, ast.Return)]
+    if rets and stores_fresh:
+        returns_fresh = True
+        for rn in rets:
+            v = rn.ast.value
+            if isinstance(v, ast.Name):
+                defs = hrd.at(rn, v.id)
+                if not (defs and all(isinstance(d.value, ast.Call) and any(d.value is c for c in ctor_calls) for d in defs)):
+                    returns_fresh = False
+            elif not (v is not None and field_name(v, recv) == recv + '._runstate'):
+                returns_fresh = False
+    return {'resets': resets, 'stores_fresh': stores_fresh, 'returns_fresh': returns_fresh, 'ctor': ctor_calls}
+
+
 def r2_fresh_state(ctx):
     rr = run_roles(ctx)
     rep = ctx.rep
@@ -114,6 +162,14 @@ def r2_fresh_state(ctx):
     dom = ctx.dom(rr.g, rr.g.entry)
     stores = [d for d in rr.rd.defs_of('self._runstate') if isinstance(d.value, ast.Call) and any(d.value is c for (_, c) in ctor)]
     ok = any(dom.dominates(d.node, rr.loop) for d in stores)
+    if not ctor:
+        # the preparation of a run may be a method of its own
+        for (hn, hc, h) in self_helpers(ctx, rr):
+            sm = helper_summary(ctx, h)
+            if sm['stores_fresh'] and dom.dominates(hn, rr.loop):
+                ok = True
+                if sm['returns_fresh']:
+                    ctor.append((hn, hc))
     rep.ob('C11.R2', ctx.loc(f, rr.loop.ast), 'self._runstate = RuntimeState(...) before the part loop', ok,
            'a freshly constructed RuntimeState is stored on every path to the part loop' if ok else
            'the part loop can start with the run state of an earlier run (SKIP / REQUIRES / report style carry over)', anchor=RUN)
@@ -183,6 +239,7 @@ def r3_accumulators_reset(ctx):
     fields = sorted(set(grown) | {'exc_info'})
     rep.note('accumulators', fields)
     rep.floor('C11.R3', 'per-run accumulators', len(fields), 5)
+    helpers = self_helpers(ctx, rr)
     for fld in fields:
         resets = []
         for (kind, node, val) in field_ops(f.node, 'self', fld):
@@ -190,6 +247,9 @@ def r3_accumulators_reset(ctx):
                 for n in rr.g.nodes_containing(node):
                     if not rr.in_loop(n):
                         resets.append(n)
+        for (hn, hc, h) in helpers:
+            if fld in helper_summary(ctx, h)['resets']:
+                resets.append(hn)
         wit = graph.must_pass([rr.g.entry], lambda x: x is rr.loop, through=resets, efilter=graph.normal_only)
         rep.ob('C11.R3', ctx.loc(f, rr.loop.ast), 'self.%s reset before the part loop' % fld, wit is None,
                'reset on every path from the entry of run() to the loop (%d reset site(s))' % len(resets) if wit is None else
